@@ -181,6 +181,27 @@ def body_classes_2d(inp, H, W):
             E[cname + tag + "_slim_in.slim"] = gs
             A[cname + tag + "_slim_in.native"] = hx.attempt(lambda: o2.native.array) if not isinstance(o2, hx.Raised) else o2
             E[cname + tag + "_slim_in.native"] = e_gnat_s
+    # values supplied as a STRUCTURE that carries another mask of the same shape (here: nothing masked): the new
+    # structure must publish forms masked by ITS OWN mask (seed C01-c)
+    m_all = aa.Mask2D(mask=np.full((H, W), False), pixel_scales=(1.0, 2.0))
+    for sn in (False, True):
+        tag = "_sn%d" % sn
+        src_a = aa.Array2D(values=v.copy(), mask=m_all, store_native=True)
+        o = hx.attempt(lambda: aa.Array2D(values=src_a, mask=m, store_native=sn))
+        A["Array2D" + tag + "_struct_in.native"] = hx.attempt(lambda: o.native.array) if not isinstance(o, hx.Raised) else o
+        E["Array2D" + tag + "_struct_in.native"] = e_nat_v
+        A["Array2D" + tag + "_struct_in.slim"] = hx.attempt(lambda: o.slim.array) if not isinstance(o, hx.Raised) else o
+        E["Array2D" + tag + "_struct_in.slim"] = e_slim_v
+        for cname, cls in (("Grid2D", aa.Grid2D), ("VectorYX2D", aa.VectorYX2D)):
+            kw = {} if cname == "Grid2D" else {"grid": aa.Grid2D.from_mask(mask=m)}
+            kw_all = {} if cname == "Grid2D" else {"grid": aa.Grid2D.from_mask(mask=m_all)}
+            src_g = cls(values=g.copy(), mask=m_all, store_native=True, **kw_all)
+            for how, vals in (("struct", src_g), ("struct_native", src_g.native)):
+                og = hx.attempt(lambda: cls(values=vals, mask=m, store_native=sn, **kw))
+                A[cname + tag + "_%s_in.native" % how] = hx.attempt(lambda: og.native.array) if not isinstance(og, hx.Raised) else og
+                E[cname + tag + "_%s_in.native" % how] = e_gnat_g
+                A[cname + tag + "_%s_in.slim" % how] = hx.attempt(lambda: og.slim.array) if not isinstance(og, hx.Raised) else og
+                E[cname + tag + "_%s_in.slim" % how] = e_gslim_g
     di = m.derive_indexes
     A["native_for_slim"] = hx.attempt(lambda: np.asarray(di.native_for_slim))
     E["native_for_slim"] = np.array(pos, dtype=float).reshape(n, 2)
